@@ -461,6 +461,7 @@ pub fn run(cx: &mut Cx) {
     cx.ev.require("glob/repeat-head/false");
     cx.ev.require("glob/set-sweep/true");
     cx.ev.require("glob/set-sweep/false");
+    cx.ev.require("workload/alternation-of-globs");
     if matches!(cx.tier, Tier::Quick | Tier::Thorough) {
         cx.ev.require("workload/hash-collisions");
     }
@@ -618,6 +619,50 @@ pub fn run(cx: &mut Cx) {
             cx.check(|| format!("comparison pattern {p:?} vs Dewey on {} names", names.len()), |ev| check_dewey_fast(ev, &p, &names));
         } else {
             let other: String = (0..r.range(0, 3)).map(|_| *r.pick(&['a', 'b', 'q', '1', '-'])).collect();
+            if r.chance(1, 3) {
+                // a leading group whose alternatives are globs of their own (2-3 of
+                // them, the later ones often sharing the first character of the
+                // first, any of them possibly empty - also the last), then a tail;
+                // names from the language of every alternative
+                let nalt = r.range(2, 3);
+                let mut alts: Vec<Vec<Tok>> = vec![];
+                for k in 0..nalt {
+                    let mut t: Vec<Tok> = if r.chance(1, 6) { vec![] } else { gen_tokens(&mut r, true) };
+                    t.truncate(5);
+                    if k > 0 && !alts[0].is_empty() && r.chance(1, 2) {
+                        if t.is_empty() {
+                            t.push(alts[0][0].clone());
+                        } else {
+                            t[0] = alts[0][0].clone();
+                        }
+                    }
+                    alts.push(t);
+                }
+                let (tail, tail_name) = *r.pick(&[("-[0-9]*", "-1.0"), ("", ""), ("-1.0", "-1.0"), ("foo-[0-9]*", "foo-2"), ("x", "x")]);
+                let texts: Vec<String> = alts.iter().map(|t| render(t)).collect();
+                let p = format!("{{{}}}{tail}", texts.join(","));
+                if p.contains("{}") || texts.iter().any(|t| t.contains(|c| matches!(c, '{' | '}' | ',' | '<' | '>'))) || texts.iter().all(|t| t.is_empty()) {
+                    continue;
+                }
+                if !texts.iter().all(|t| t.is_empty() || matches!(opat::parse_glob(t), GlobParse::Ok(_)) || !opat::has_glob_meta(t)) {
+                    continue;
+                }
+                let mut names: Vec<(String, &'static str)> = vec![];
+                for t in &alts {
+                    let nm = format!("{}{tail_name}", sample(&mut r, t));
+                    names.extend(mutations(&mut r, &nm));
+                    names.push((nm, "lang"));
+                }
+                names.push((tail_name.to_string(), "lang"));
+                cx.check(
+                    || format!("alternation of globs {p:?} vs expansions on {} names, e.g. {:?}", names.len(), names.iter().rev().take(3).map(|n| &n.0).collect::<Vec<_>>()),
+                    |ev| {
+                        ev.count("workload/alternation-of-globs");
+                        check_alt_fast(ev, &p, &names)
+                    },
+                );
+                continue;
+            }
             let p = match r.below(4) {
                 0 => format!("{{{base},{other}}}-[0-9]*"),
                 1 => format!("{base}{{{other},}}-[0-9]*"),
